@@ -99,6 +99,12 @@ def check_case(ctx, cs):
         ok, got = _try(ctx, cname + ".derivatives", tg + (["order>degree"] if order > min(sh["deg"]) else []), small, lambda: obj.derivatives(*prm, order=order))
         if ok:
             check_table(ctx, cname + ".derivatives", tg, small, got, o, sh, pd, order)
+        ok, obja = _try(ctx, cname + ".build", tg, small, lambda: build(sh, alt_repr=True))
+        if ok:
+            prm2 = [int(x) if float(x).is_integer() else x for x in prm]
+            ok, got = _try(ctx, cname + ".derivatives", tg + ["tuples_and_ints"], small, lambda: obja.derivatives(*prm2, order=order))
+            if ok:
+                check_table(ctx, cname + ".derivatives", tg + ["tuples_and_ints"], small, got, o, sh, pd, order)
         # the documented span-search option: the derivatives (right-hand ones at a knot) are the same with the bisection search
         from geomdl import helpers as _helpers
         ok, objb = _try(ctx, cname + ".build", tg, small, lambda: build(sh, span_func=_helpers.find_span_binsearch))
